@@ -43,10 +43,10 @@ def mc_cfg(geoms: str, facet: str, maxops: int, alphabet: str, marked: bool) -> 
 
 def model_check(run) -> None:
     quick = run.tier == "quick"
-    big = "G14" if quick else "G15"
+    single = ("text, single call, every text over {a,b} up to cols+2 / column / row / alignment / clear flag, from the %s matrix, %s")
     jobs = [
-        (f"text, single call, every text over {{a,b}} up to cols+2 / column / row / alignment / clear flag, from the marked matrix, {big}",
-         mc_cfg(big, "text", 1, "AB", True), 4, 20000),
+        (single % ("marked", "cols 1..3 x rows 1..2 and 4x1"), mc_cfg("GA1", "text", 1, "AB", True), 2, 20000),
+        (single % ("marked", "4x2"), mc_cfg("GA2", "text", 1, "AB", True), 2, 20000),
         ("text, closure under call sequences of every length, texts a^0..a^(cols+2), " + ("2x2 3x1 3x2" if quick else "cols 1..4 x rows 1..2"),
          mc_cfg("GSeq" if quick else "GSeqT", "text", 0, "A1", False), 2, 100),
         ("progress, sequences of <= 3 bars, value -1..5 x max {-1,0,1,2,4} x width x label, filled chosen freely in FillSet",
@@ -55,9 +55,12 @@ def model_check(run) -> None:
          mc_cfg("Wirings", "devices", 0, "A1", False), 2, 500),
     ]
     if not quick:
-        jobs.append(("text, single call from the blank matrix, G15", mc_cfg("G15", "text", 1, "AB", False), 4, 20000))
-        jobs.append(("text, sequences of <= 2 calls over {a,b}, cols 1..3", mc_cfg("G13", "text", 2, "AB", False), 4, 20000))
-    with cf.ThreadPoolExecutor(max_workers=4) as ex:
+        jobs += [(single % ("marked", "5x1"), mc_cfg("GA3", "text", 1, "AB", True), 2, 20000),
+                 (single % ("marked", "5x2"), mc_cfg("GA4", "text", 1, "AB", True), 2, 20000),
+                 (single % ("blank", "cols 1..4 x rows 1..2"), mc_cfg("G14", "text", 1, "AB", False), 2, 20000),
+                 (single % ("blank", "5x2"), mc_cfg("GA4", "text", 1, "AB", False), 2, 20000),
+                 ("text, sequences of <= 2 calls over {a,b}, cols 1..3", mc_cfg("G13", "text", 2, "AB", False), 4, 20000)]
+    with cf.ThreadPoolExecutor(max_workers=5) as ex:
         futs = [ex.submit(run_tlc, "LCDTextMC", cfg, workers=w, timeout=2400) for (_l, cfg, w, _m) in jobs]
         for (label, _cfg, _w, minstates), f in zip(jobs, futs):
             res = f.result()
